@@ -369,6 +369,29 @@ def fetchTickDrop (ans : Bytes → TiAns) (count : Option Int) (page : Nat → I
         (stepBatch { s with fromIndex := next } us, some us)
       | (_, cursor, _) => ({ s with fromIndex := cursor }, none)
 
+/-! ## a count that moves backwards
+
+The count request may be answered lower than before (a load-balanced endpoint answering from a backend that is behind, a
+fail-over, a node that is resyncing).  The pinned `fetchEvents` compares the count with its cursor for equality only: a lower
+count sends it into the page loop *from its cursor* (`fetchTick` above: the page loop starts at `s.fromIndex` whatever the
+count), and a node never answers a page request with a `nextStart` below the `start` it was asked with — the cursor never
+moves back (`C09.cursor_never_moves_back`).  `fetchTickFollow` is the variant that lets the cursor follow a lower count; it
+is *not* admissible: once the count is right again the positions between the dip and the old cursor are fetched and handed
+over a second time (`C09.following_the_count_refetches`). -/
+
+/-- the cursor follows a count that is lower than it (and nothing is fetched in that tick) -/
+def fetchTickFollow (ans : Bytes → TiAns) (count : Option Int) (page : Nat → Int → Option Page) (fuel : Nat) (s : WState) : WState × Option (List Unconf) :=
+  match count with
+  | none => ({ s with alive := false }, none)
+  | some c =>
+    if c = s.fromIndex then (s, none)
+    else if c < s.fromIndex then ({ s with fromIndex := c }, none)
+    else match pageLoop page c fuel 0 s.fromIndex [] with
+      | .done next evs _ =>
+        let us := handleUnconfirmed ans evs
+        (stepBatch { s with fromIndex := next } us, some us)
+      | _ => ({ s with alive := false }, none)
+
 /-! ## `NewAlephiumWatcher` (watcher.go:88-131) -/
 
 /-- `common.ChainConfig` for Alephium as `common.ReadConfigsByNetwork` fills it from `configs/alephium/<network>.json`, together with
